@@ -1070,22 +1070,30 @@ func (o *ovsdbClient) monitor(ctx context.Context, cookie MonitorCookie, reconne
 
 	var lastTransactionFound bool
 	switch monitor.Method {
+	// A reply is only looked at when the call succeeded: after a context expiry
+	// the call is still pending and the read loop decodes a late response into it.
 	case ovsdb.MonitorRPC:
 		var reply ovsdb.TableUpdates
 		err = o.rpcClient.CallWithContext(ctx, monitor.Method, args, &reply)
-		tableUpdates = reply
+		if err == nil {
+			tableUpdates = reply
+		}
 	case ovsdb.ConditionalMonitorRPC:
 		var reply ovsdb.TableUpdates2
 		err = o.rpcClient.CallWithContext(ctx, monitor.Method, args, &reply)
-		tableUpdates = reply
+		if err == nil {
+			tableUpdates = reply
+		}
 	case ovsdb.ConditionalMonitorSinceRPC:
 		var reply ovsdb.MonitorCondSinceReply
 		err = o.rpcClient.CallWithContext(ctx, monitor.Method, args, &reply)
-		if err == nil && reply.Found {
-			monitor.LastTransactionID = reply.LastTransactionID
-			lastTransactionFound = true
+		if err == nil {
+			if reply.Found {
+				monitor.LastTransactionID = reply.LastTransactionID
+				lastTransactionFound = true
+			}
+			tableUpdates = reply.Updates
 		}
-		tableUpdates = reply.Updates
 	default:
 		undefer()
 		return fmt.Errorf("unsupported monitor method: %v", monitor.Method)
@@ -1181,6 +1189,9 @@ func (o *ovsdbClient) Echo(ctx context.Context) error {
 		if err == rpc2.ErrShutdown {
 			return ErrNotConnected
 		}
+		// the call may still be pending (context expired): a late response is
+		// decoded into reply by the read loop, it must not be looked at
+		return err
 	}
 	if !reflect.DeepEqual(args, reply) {
 		return fmt.Errorf("incorrect server response: %v, %v", args, reply)
